@@ -18,8 +18,8 @@ from ..minimise import list_candidates
 ID = "C17"
 LEVEL = "exploration"
 TIERS = {
-    "quick": {"runs": 3500, "wall_cap": 150, "timeout": 120, "dups": 16},
-    "thorough": {"runs": 90000, "wall_cap": 1700, "timeout": 120, "dups": 64},
+    "quick": {"runs": 3500, "wall_cap": 150, "timeout": 400, "dups": 16},
+    "thorough": {"runs": 90000, "wall_cap": 1700, "timeout": 400, "dups": 64},
 }
 MOVES = ("swapRandChargeRes", "full_shuffle", "permute_block_swap", "permute_cluster_charges")
 RULE = ("Each run is a seeded chain (4-16 ops, depth up to 12) over a world of 1-3 root sequences (N 1-40, all composition classes incl. "
